@@ -980,9 +980,20 @@ class DataFrameSchema(Generic[TDataObject], BaseSchema):
                     dtype=new_schema.columns[col].dtype,
                     name=col,
                     checks=new_schema.columns[col].checks,
+                    parsers=new_schema.columns[col].parsers,
                     nullable=new_schema.columns[col].nullable,
                     unique=new_schema.columns[col].unique,
+                    report_duplicates=new_schema.columns[
+                        col
+                    ].report_duplicates,
                     coerce=new_schema.columns[col].coerce,
+                    title=new_schema.columns[col].title,
+                    description=new_schema.columns[col].description,
+                    default=new_schema.columns[col].default,
+                    metadata=new_schema.columns[col].metadata,
+                    drop_invalid_rows=new_schema.columns[
+                        col
+                    ].drop_invalid_rows,
                 )
             )
 
@@ -1165,8 +1176,14 @@ class DataFrameSchema(Generic[TDataObject], BaseSchema):
                         checks=v.checks,
                         nullable=v.nullable,
                         unique=v.unique,
+                        report_duplicates=v.report_duplicates,
                         coerce=v.coerce,
                         name=v.name,
+                        title=v.title,
+                        description=v.description,
+                        default=v.default,
+                        metadata=v.metadata,
+                        drop_invalid_rows=v.drop_invalid_rows,
                     )
                     for (k, v) in additional_columns.items()
                 }
